@@ -5,7 +5,8 @@ import json, os, re, sys
 sid = sys.argv[1]
 d = '/verif/seeded/' + sid
 if not os.path.exists(d + '/meta.json') and os.path.exists(d + '/meta.agent.json'):
-    os.system('python3 /verif/tools/seed_meta.py %s "%s" "%s"' % (sid, sys.argv[2] if len(sys.argv) > 2 else '?', sys.argv[3] if len(sys.argv) > 3 else ''))
+    import subprocess
+    subprocess.check_call(['python3', '/verif/tools/seed_meta.py', sid, sys.argv[2] if len(sys.argv) > 2 else '?', sys.argv[3] if len(sys.argv) > 3 else ''])
 m = json.load(open(d + '/meta.json'))
 conf = open('/tmp/seed_out/%s/confirm.log' % sid, errors='replace').read()
 summ = re.findall(r'Summary \[.*?\] (.*)', conf)
